@@ -157,6 +157,7 @@ class Interp(object):
         self.const_busy = set()
         self.self_obj = None
         self._diverged = None
+        self.opaque = 0
         self.trace = False
 
     # ------------------------------------------------------------------
@@ -495,6 +496,8 @@ class Interp(object):
         if r[0] is None:
             return r
         v = self.binop(s.op, cur, rhs)
+        if isinstance(v, models.Raises):
+            return None, self.do_raise(v.exc, st, s)
         if isinstance(cur, list) and isinstance(s.op, ast.Add) and \
                 isinstance(v, list):
             # in-place extend keeps aliasing
@@ -604,6 +607,11 @@ class Interp(object):
         if tv is False:
             st.must.add("F:" + lab)
             return self.walk_body(s.orelse, st, fr)
+        if self.trace:
+            print("UNKNOWN-IF %s:%d %s -> %r" % (fr.mod.name, s.lineno, norm(s.test)[:80], t))
+            for x in ast.walk(s.test):
+                if isinstance(x, (ast.Name, ast.Attribute)):
+                    print("      ", norm(x), "=", repr(self.ev(x, st))[:100])
         s1 = st.clone()
         s2 = st
         self.refine(s.test, True, s1, fr)
@@ -863,40 +871,70 @@ class Interp(object):
             fr.loops.pop()
 
     def st_While(self, s, st, fr):
-        t0 = truth(self.ev(s.test, st))
-        r = self._after_ev(st)
-        if r[0] is None:
-            return r
-        if t0 is False:
-            return self.walk_body(s.orelse, st, fr)
+        """Concrete unrolling while the test stays definite (bounded), then
+        the abstract treatment (havoc + one symbolic iteration)."""
         lr = LoopRec(s)
         fr.loops.append(lr)
         try:
-            self.havoc_for_loop(s.body, st)
-            always = isinstance(s.test, ast.Constant) and bool(s.test.value)
-            skip = None if (always or t0 is True) else st.clone()
-            self.unknown_depth += 1
-            try:
-                end, killers = self.walk_body(s.body, st, fr)
-            finally:
-                self.unknown_depth -= 1
-            for c in lr.continues:
-                end = join_states(end, c)
-            if always:
-                out = None      # only break leaves the loop
-            else:
-                out = join_states(skip, end)
-                if out is not None:
-                    self.refine(s.test, False, out, fr)
-            if s.orelse and out is not None:
+            cur = st
+            exits = []
+            n = 0
+            killers = set()
+            while True:
+                t0 = truth(self.ev(s.test, cur))
+                r = self._after_ev(cur)
+                if r[0] is None:
+                    return r
+                if t0 is False:
+                    out = cur
+                    break
+                if t0 is None or n >= 300:
+                    return self._while_abstract(s, cur, fr, lr, exits, t0)
+                n += 1
+                end, killers = self.walk_body(s.body, cur, fr)
+                for c in lr.continues:
+                    end = join_states(end, c)
+                lr.continues = []
+                exits.extend(lr.breaks)
+                lr.breaks = []
+                if end is None:
+                    out = None
+                    break
+                cur = end
+            if out is not None and s.orelse:
                 out, k2 = self.walk_body(s.orelse, out, fr)
-            for b in lr.breaks:
+            for b in exits:
                 out = join_states(out, b)
             if out is None:
                 return None, killers | set([("loop", id(s))])
             return out, set()
         finally:
             fr.loops.pop()
+
+    def _while_abstract(self, s, st, fr, lr, exits, t0):
+        self.havoc_for_loop(s.body, st)
+        always = isinstance(s.test, ast.Constant) and bool(s.test.value)
+        skip = None if (always or t0 is True) else st.clone()
+        self.unknown_depth += 1
+        try:
+            end, killers = self.walk_body(s.body, st, fr)
+        finally:
+            self.unknown_depth -= 1
+        for c in lr.continues:
+            end = join_states(end, c)
+        if always:
+            out = None      # only break leaves the loop
+        else:
+            out = join_states(skip, end)
+            if out is not None:
+                self.refine(s.test, False, out, fr)
+        if s.orelse and out is not None:
+            out, k2 = self.walk_body(s.orelse, out, fr)
+        for b in lr.breaks + exits:
+            out = join_states(out, b)
+        if out is None:
+            return None, killers | set([("loop", id(s))])
+        return out, set()
 
     def st_Break(self, s, st, fr):
         if fr.loops:
@@ -922,10 +960,12 @@ class Interp(object):
         tr = TryRec(s, len(self.frames) - 1)
         entry = st.clone()
         fr.tries.append(tr)
+        opaque0 = self.opaque
         try:
             end, kb = self.walk_body(s.body, st, fr)
         finally:
             fr.tries.pop()
+        body_transparent = self.opaque == opaque0
         if end is not None and s.orelse:
             end, kb = self.walk_body(s.orelse, end, fr)
         kb = set(k for k in kb if not (k[0] == "caught" and k[1] == id(s)))
@@ -950,7 +990,7 @@ class Interp(object):
                     hs = join_states(hs, cst)
                     classes.append(exc)
             explicit = hs is not None
-            if has_call and generic is not None:
+            if has_call and generic is not None and not body_transparent:
                 g = generic.clone()
                 g.must = set(entry.must)
                 hs = join_states(hs, g)
@@ -999,15 +1039,20 @@ class Interp(object):
                 return v(self, st) if callable(v) else v
         m = getattr(self, "ex_" + type(node).__name__, None)
         if m is None:
+            self.opaque += 1
             return UNK
         try:
-            return m(node, st)
+            v = m(node, st)
+            if isinstance(v, Unknown):
+                self.opaque += 1
+            return v
         except AnalysisError:
             raise
         except RecursionError:
             raise AnalysisError("recursion limit in abstract interpretation")
         except (ArithmeticError, ValueError, TypeError, IndexError, KeyError,
                 AttributeError, OverflowError, MemoryError):
+            self.opaque += 1
             return UNK
 
     def ex_Constant(self, n, st):
@@ -1197,7 +1242,11 @@ class Interp(object):
     def ex_BinOp(self, n, st):
         a = self.ev(n.left, st)
         b = self.ev(n.right, st)
-        return self.binop(n.op, a, b)
+        v = self.binop(n.op, a, b)
+        if isinstance(v, models.Raises):
+            self._diverged = self.do_raise(v.exc, st, n)
+            return UNK
+        return v
 
     def binop(self, op, a, b):
         return models.binop(op, a, b)
@@ -1208,6 +1257,10 @@ class Interp(object):
         unknown = False
         for op, c in zip(n.ops, n.comparators):
             right = self.ev(c, st)
+            if isinstance(op, (ast.In, ast.NotIn)) and (
+                    right is None or isinstance(right, (int, float))):
+                self._diverged = self.do_raise("TypeError", st, n)
+                return UNK
             r = models.compare(op, left, right)
             if r is False:
                 return False
